@@ -31,6 +31,21 @@ def _bucket_eff(me: str) -> Any:
     return eff
 
 
+
+def sighting_predicate_table(ctx: Any, R: str, nm: str) -> List[Ob]:
+    """A sighting predicate of the answer set as a table: no cache entry -> not seen; an entry -> seen exactly when its time
+    test says so (a predicate that tests the absent entry, or answers `seen` for no entry, sends every answer the wrong way)."""
+    g = ctx.prog.func(QR + '.' + nm)
+    obs: List[Ob] = []
+    for entry, recent in ((False, False), (True, True), (True, False)):
+        atoms_s: Dict[str, Any] = {'.async_get_unique()': fd.Sym('entry') if entry else None, '.is_recent()': recent, f'{g.params[0]}._now': 100000.0, '.created': 100000.0 - (10.0 if recent else 5000000.0)}
+        oc_s, und_s = traces(ctx, g, atoms_s, lambda n, e: [], loop_bound=1)
+        rets_s = {bool(x[1]) if x[1] in (True, False, None) else x[1] for t in oc_s for x in t if isinstance(x, tuple) and x[0] == 'ret'}
+        want_s = entry and recent
+        obs.append(ob(R, g, f'{nm}: {"no cache entry" if not entry else ("entry seen just now" if recent else "entry seen long ago")}', f'returns {want_s}', rets_s == {want_s} and not und_s, f'returns {sorted(map(str, rets_s))}; undecided {und_s}'))
+    return obs
+
+
 def mcast_table(ctx: Any, R: str) -> List[Ob]:
     """Decision table of the multicast answer routine over (probe, seen in the last second, number of
     questions, question type): probe -> now; else seen < 1 s -> the protected queue; else a single
@@ -409,6 +424,7 @@ def fmt(ctx: Any) -> List[Ob]:
         g = prog.func(QR + '.' + nm)
         calls = [c for c in walk_local_ordered(g.node) if isinstance(c, ast.Call) and call_name(c) == 'async_get_unique']
         obs.append(ob(R, g, calls[0] if calls else nm, 'the sighting consulted is the cache entry equal to the record being answered', len(calls) == 1 and [norm(a) for a in calls[0].args] == [g.params[1]]))
+        obs.extend(sighting_predicate_table(ctx, R, nm))
     # `within a quarter of its TTL`, exactly: the test either is the record's own is_recent(arrival time) (normalised under
     # C05.LIFETIME to created + 250*ttl - now > 0) or normalises to that form itself; a whole-second quarter (ttl // 4) ends the
     # unicast-only window up to 750 ms early, and for TTLs below 4 s there is none
